@@ -101,6 +101,55 @@ func (se *cfsSess) readAll(name string, add func(op, ob, d string)) {
 	add(fmt.Sprintf("ORead %d %d", h, n), fmt.Sprintf("VData %s %s", c08Bytes(buf[:got]), gBool(eof)), fmt.Sprintf("read all of %q", name))
 }
 
+// firstTouch opens a file that came with the loaded manifest and makes one specific first mutation
+// or read on it (the state "loaded, never touched" is left by the first write, so random histories
+// rarely exercise each kind of first operation on it).
+func (se *cfsSess) firstTouch(r *vRand, name string, add func(op, ob, d string)) {
+	f, err := se.fs.OpenFile(name, os.O_RDWR, 0)
+	op := fmt.Sprintf("OOpen %s (FL 2 false false false false false)", gStr(name))
+	if err != nil {
+		add(op, c08ErrObs(err), fmt.Sprintf("open %q", name))
+		return
+	}
+	se.hs = append(se.hs, f)
+	h := len(se.hs) - 1
+	add(op, fmt.Sprintf("VNat %d", h), fmt.Sprintf("open %q", name))
+	size := int(f.Size())
+	switch r.Intn(5) {
+	case 0, 1: // truncate somewhere inside (or at the ends of) the file
+		n := r.Intn(size + 2)
+		err := f.Truncate(int64(n))
+		ob := "VUnit"
+		if err != nil {
+			ob = c08ErrObs(err)
+		}
+		add(fmt.Sprintf("OTrunc %d %d", h, n), ob, fmt.Sprintf("truncate h%d %d (first touch, size %d)", h, n, size))
+		se.tag("first-truncate")
+	case 2, 3: // seek inside, then write
+		off := r.Intn(size + 2)
+		pos, err := f.Seek(int64(off), 0)
+		if err != nil {
+			add(fmt.Sprintf("OSeek %d %d false 0", h, off), c08ErrObs(err), "seek")
+			return
+		}
+		add(fmt.Sprintf("OSeek %d %d false 0", h, off), fmt.Sprintf("VNat %d", pos), fmt.Sprintf("seek h%d %d", h, off))
+		data := make([]byte, 1+r.Intn(2*se.mb+1))
+		for j := range data {
+			data[j] = byte(1 + r.Intn(250))
+		}
+		wn, err := f.Write(data)
+		ob := fmt.Sprintf("VNat %d", wn)
+		if err != nil {
+			ob = c08ErrObs(err)
+		}
+		add(fmt.Sprintf("OWrite %d %s", h, c08Bytes(data)), ob, fmt.Sprintf("write h%d %d bytes (first touch)", h, len(data)))
+		se.tag("first-write")
+	default:
+	}
+	// read everything back through a second handle
+	se.readAll(name, add)
+}
+
 // randomOp performs one random foreground operation (step i of the history) and reports it through add.
 // readonly restricts the choice to operations that cannot modify the filesystem.
 func (se *cfsSess) randomOp(r *vRand, focus bool, i int, readonly bool, add func(op, ob, d string)) {
